@@ -178,6 +178,12 @@ func sEdge(seed int64, full bool) []*big.Int {
 	add(pow2(252))
 	add(pow2(253))
 	add(new(big.Int).Lsh(big.NewInt(1), 256)) // R mod r (Montgomery one)
+	// values whose Montgomery representation (v*2^256 mod r) is tiny or has a zero low limb: code that
+	// inspects raw limbs mistakes them for 0, 1 or a small integer
+	rinv := new(big.Int).ModInverse(pow2(256), bigR)
+	for _, k := range []*big.Int{bi(1), bi(2), new(big.Int).Sub(pow2(64), bi(1)), pow2(64), pow2(192)} {
+		add(new(big.Int).Mul(rinv, k))
+	}
 	add(lambdaGLV)
 	add(new(big.Int).Add(lambdaGLV, bi(1)))
 	add(new(big.Int).Sub(lambdaGLV, bi(1)))
